@@ -468,7 +468,15 @@ def classify(b, res):
         # a failed clause that lives outside the region (callee precondition) carries the caller's props
         fprops = sorted(tags) if tags else list(props)
         short = re.sub(r"//.*$", "", ctext).strip()[:90]
+        # Is this failure a statement of the contract, or only a step of the proof?  Untagged `assert`s are hints for the
+        # solver: when one fails (for instance because it now sits next to different code) nothing is known yet about the
+        # contract itself - worse, Verus ASSUMES a failed assert afterwards, which can hide the clause that really fails.
+        # Header clauses, loop invariants, preconditions of callees and lemmas (they relate abstract states), safety
+        # conditions and every clause carrying a [Cxx] tag are statements of the contract.  See neutralise_asserts().
+        step = kind in ("assert",) and not tags
         failures.append({
+            "proof_step_only": step,
+            "primary": {"line": prim[0]["line_start"], "col": prim[0].get("column_start", 1)},
             "obligation": "%s/%s/%s: %s" % (b.unit, label, kind, short),
             "unit": b.unit, "fn": label, "kind": kind, "message": msg, "props": fprops,
             "emitted_line": line, "at": " ".join(b.lines[line - 1].split())[:160],
@@ -483,6 +491,68 @@ def classify(b, res):
         if not vr.get("success") and vr.get("errors", 0) == 0 and not undecided and not failures:
             undecided.append("verus did not succeed: " + " | ".join(res["raw"][:3]))
     return failures, undecided
+
+
+def neutralise_asserts(b, fails):
+    """rewrite the emitted file so that the given failed `assert` statements are neither checked nor assumed
+    (`if false { assert... }`, on the same lines: every line number stays valid); returns how many were rewritten"""
+    text = "\n".join(b.lines)
+    starts = [0]
+    for ln in b.lines:
+        starts.append(starts[-1] + len(ln) + 1)
+    toks = rscan.tokenize(text)
+    br = rscan.match_brackets(toks)
+    edits = []
+    for f in fails:
+        off = starts[f["primary"]["line"] - 1] + f["primary"]["col"] - 1
+        # the `assert` keyword at or before the primary span, in the same annotation
+        k = None
+        for i, t in enumerate(toks):
+            if t.pos > off:
+                break
+            if t.text == "assert" and t.kind == "ident":
+                k = i
+        if k is None or off - toks[k].pos > 4000:
+            continue
+        # statement end: the first `;` at depth 0, or the `}` closing a `by { }` block (plus a `;` right after it)
+        j = k + 1
+        end = None
+        while j < len(toks):
+            t = toks[j]
+            if t.text in ("(", "[", "{"):
+                close = br.get(j)
+                if close is None:
+                    break
+                if t.text == "{":
+                    end = toks[close].end
+                    if close + 1 < len(toks) and toks[close + 1].text == ";":
+                        end = toks[close + 1].end
+                    break
+                j = close + 1
+                continue
+            if t.text == ";":
+                end = t.end
+                break
+            if t.text in (")", "]", "}"):
+                break
+            j += 1
+        if end is None:
+            continue
+        edits.append((toks[k].pos, end))
+    edits = sorted(set(edits))
+    # drop nested / overlapping ranges
+    keep = []
+    for a, z in edits:
+        if keep and a < keep[-1][1]:
+            continue
+        keep.append((a, z))
+    for a, z in reversed(keep):
+        text = text[:a] + "if false { " + text[a:z] + " }" + text[z:]
+    if keep:
+        b.lines = text.split("\n")
+        with open(b.path, "w", encoding="utf-8") as fh:
+            fh.write(text)
+    return len(keep)
 
 
 def function_breakdown(res, b):
